@@ -42,7 +42,10 @@ def main():
     # 1. regenerate Gen tables from the tree
     from tools.gen import gen
     with vlib.build_lock():
-        gstat = gen.regenerate(tree)
+        try:
+            gstat = gen.regenerate_isolated(tree)      # all plugins, in a child process (see its docstring)
+        except Exception as x:
+            gstat = {k: {"ok": False, "error": "generator run failed: %s" % x, "changed": False, "info": {}} for k in getattr(mod, "GEN", [])}
     gen_needed = getattr(mod, "GEN", [])
     gen_fail = {k: v["error"] for k, v in gstat.items() if k in gen_needed and not v["ok"]}
     # 2. re-check the proofs
@@ -123,7 +126,7 @@ def main():
     cov = {"obligations": nthm, "discharged": discharged,
            "checker_cmd": "make -C coq Props/%s.vo && coqc -Q coq V coq/Props/%s.v" % (ctx.prop, ctx.prop),
            "trusted_base": tb, "theorems": proof["theorems"],
-           "gen_tables": {k: {"ok": v["ok"], "sha": v.get("sha"), "error": v["error"]} for k, v in gstat.items() if k in gen_needed},
+           "gen_tables": {k: {"ok": v["ok"], "sha": v.get("sha"), "error": v["error"], "reader": (v.get("info") or {}).get("mode")} for k, v in gstat.items() if k in gen_needed},
            "evaluations": res.evaluations, "distinct_nontrivial": len(res.keys), "rule": res.rule,
            "samples": res.samples[:6] if res.samples else [{"theorems": proof["theorems"]}],
            "input_distribution": res.dist, "disagreements_checked": len(res.mismatches),
@@ -167,7 +170,7 @@ def replay(ctx, mod, payload):
         return 1 if fails else 0
     # theorem / correspondence replays: re-run the obligation that broke
     from tools.gen import gen
-    gen.regenerate(ctx.tree)
+    gen.regenerate_isolated(ctx.tree)
     proof = vlib.build_props(ctx.prop)
     ok = proof["ok"]
     detail = proof["broken"]
